@@ -650,6 +650,10 @@ impl HttpCtx {
         let status = http_full(self.port, raw).0;
         let after = crate::PANIC_COUNT.load(std::sync::atomic::Ordering::SeqCst);
         ex.n += 1;
+        if let Ok(pat) = std::env::var("C16_HTTP_TRACE") {
+            let line = String::from_utf8_lossy(&raw[..raw.iter().position(|b| *b == b'\r').unwrap_or(raw.len())]).into_owned();
+            if line.contains(&pat) { eprintln!("trace {line} -> {status:?} panics {}", after - before); }
+        }
         if after != before {
             let (msg, site) = crate::LAST_PANIC.lock().unwrap_or_else(|e| e.into_inner()).clone().unwrap_or_else(|| ("<no message>".into(), "?".into()));
             ex.panic("http:daemon", origin, raw, Caught { msg, site });
@@ -695,7 +699,7 @@ fn sweep_bodies() -> Vec<(Vec<u8>, Option<&'static str>)> {
     ];
     // type-correct JSON of the various request types, so that every route also sees a decodable wrong document
     for b in [json!({"handle": "zz"}), json!({"added": [], "removed": []}), json!({"add_or_replace": [], "remove": []}), json!({"add": [], "remove": []}),
-              json!({"resources": {"asn": "", "ipv4": "", "ipv6": ""}}), json!({"base_uri": "rsync://localhost/repo/"}), json!({"cas": []})] {
+              json!({"resources": {"asn": "", "ipv4": "", "ipv6": ""}}), json!({"base_uri": "rsync://localhost/repo/c16-nothing/"}), json!({"cas": []})] {
         v.push((b.to_string().into_bytes(), j));
     }
     v
@@ -769,10 +773,18 @@ fn http_setup(ctx: &HttpCtx, ex: &mut Ex) {
 /// handle segment, and (for routes that are not GET) every malformed body, all with the admin token so that the
 /// handler body is reached. `deletes` selects the DELETE routes (run last: they destroy the objects).
 fn route_sweep(ctx: &HttpCtx, ex: &mut Ex, routes: &[Route], deletes: bool) {
-    let bodies = sweep_bodies();
-    for route in routes.iter().filter(|r| (r.method == "DELETE") == deletes) {
-        let m = route.method.as_str();
-        let default_body: &[u8] = if m == "GET" { b"" } else { b"{}" };
+    // Pass 1 (numeric segments and plain GETs) runs over ALL routes before any malformed or type-correct body is
+    // sent: some bodies are accepted by destructive routes (pubd/delete, pubd/init, bulk operations) and would
+    // empty the state the numeric values are meant to meet.
+    for pass in 1..=3 {
+        for route in routes.iter().filter(|r| (r.method == "DELETE") == deletes) { route_sweep_one(ctx, ex, route, pass); }
+    }
+}
+
+fn route_sweep_one(ctx: &HttpCtx, ex: &mut Ex, route: &Route, pass: u8) {
+    let m = route.method.as_str();
+    let default_body: &[u8] = if m == "GET" { b"" } else { b"{}" };
+    if pass == 1 {
         // (1) integers
         let num_positions: Vec<usize> = route.segs.iter().enumerate().filter(|(_, s)| is_numeric_seg(s)).map(|(i, _)| i).collect();
         'num: for &pos in &num_positions {
@@ -789,6 +801,16 @@ fn route_sweep(ctx: &HttpCtx, ex: &mut Ex, routes: &[Route], deletes: bool) {
                 if ctx.send(ex, "route-sweep/numeric-segment", &request(m, &path, Some("application/json"), default_body)).1 { break }
             }
         }
+        if m == "GET" {
+            for combo in 0..3 {
+                let path = fill(route, combo, None, "10");
+                ctx.send(ex, "route-sweep/get", &request(m, &path, None, b""));
+                ctx.send(ex, "route-sweep/get", &request(m, &format!("{path}/"), None, b""));
+                ctx.send(ex, "route-sweep/get", &request(m, &path, Some("application/json"), b"{}"));
+            }
+        }
+    }
+    if pass == 2 {
         // (2) handles
         for (pos, _) in route.segs.iter().enumerate().filter(|(_, s)| s.k == "P" && !is_numeric_seg(s)) {
             for v in ODD_HANDLES {
@@ -796,20 +818,14 @@ fn route_sweep(ctx: &HttpCtx, ex: &mut Ex, routes: &[Route], deletes: bool) {
                 if ctx.send(ex, "route-sweep/handle-segment", &request(m, &path, Some("application/json"), default_body)).1 { break }
             }
         }
+    }
+    if pass == 3 && m != "GET" {
         // (3) bodies
-        if m != "GET" {
-            'body: for combo in 0..3 {
-                let path = fill(route, combo, None, "10");
-                for (b, ct) in &bodies {
-                    if ctx.send(ex, "route-sweep/malformed-body", &request(m, &path, *ct, b)).1 { break 'body }
-                }
-            }
-        } else {
-            for combo in 0..3 {
-                let path = fill(route, combo, None, "10");
-                ctx.send(ex, "route-sweep/get", &request(m, &path, None, b""));
-                ctx.send(ex, "route-sweep/get", &request(m, &format!("{path}/"), None, b""));
-                ctx.send(ex, "route-sweep/get", &request(m, &path, Some("application/json"), b"{}"));
+        let bodies = sweep_bodies();
+        'body: for combo in 0..3 {
+            let path = fill(route, combo, None, "10");
+            for (b, ct) in &bodies {
+                if ctx.send(ex, "route-sweep/malformed-body", &request(m, &path, *ct, b)).1 { break 'body }
             }
         }
     }
@@ -848,6 +864,7 @@ fn http_in_child(args: &Args, scale: u64) -> Explore {
             }
         }
     }
+    if status.code() == Some(3) { eprintln!("c16: the HTTP part could not set up its live daemon (see above); the scenario is broken, not passed"); std::process::exit(3); }
     // the child died: the in-flight request is the failing input
     let raw = std::fs::read(&inflight).unwrap_or_default();
     let shown = if raw.len() > 4096 { &raw[..4096] } else { &raw[..] };
@@ -981,7 +998,8 @@ fn http_populate(ctx: &HttpCtx, ex: &mut Ex, repo: &str) {
     // the certificate arrives through the scheduler: trigger the sync and try the ROA until it is held
     let roa = json!({"added": [{"asn": 65001, "prefix": "10.1.0.0/24", "max_length": 24, "comment": "c16"}], "removed": []});
     let mut held = false;
-    for _ in 0..80 {
+    let deadline = std::time::Instant::now() + std::time::Duration::from_secs(240);
+    while std::time::Instant::now() < deadline {
         let _ = http_full(ctx.port, &request("POST", "/api/v1/cas/kid/sync/parents", None, b""));
         if post_json(ctx, "/api/v1/cas/kid/routes", &roa).0 == Some(200) { held = true; break }
         std::thread::sleep(std::time::Duration::from_millis(250));
@@ -990,14 +1008,19 @@ fn http_populate(ctx: &HttpCtx, ex: &mut Ex, repo: &str) {
     steps.push(("aspa", post_json(ctx, "/api/v1/cas/kid/aspas", &json!({"add_or_replace": [{"customer": 65001, "providers": [65002, 65003]}], "remove": []})).0 == Some(200)));
     let csr = std::fs::read(format!("{repo}/test-resources/bgpsec/router-csr.der")).map(|b| b64std(&b)).unwrap_or_default();
     steps.push(("bgpsec", post_json(ctx, "/api/v1/cas/kid/bgpsec", &json!({"add": [{"asn": 65001, "csr": csr}], "remove": []})).0 == Some(200)));
+    // wait until the repository statistics show a manifest for kid (and for the testbed CA): handlers that iterate
+    // over publishers then see real update times
     let mut published = false;
-    for _ in 0..80 {
+    let deadline = std::time::Instant::now() + std::time::Duration::from_secs(240);
+    while std::time::Instant::now() < deadline {
         let _ = http_full(ctx.port, &request("POST", "/api/v1/cas/kid/sync/repo", None, b""));
         let d = get_text(ctx, "/api/v1/pubd/publishers/kid");
-        if d.contains(".mft") && d.contains(".roa") { published = true; break }
+        let stats = get_json(ctx, "/stats/repo");
+        let has_mft = |h: &str| stats["publishers"][h]["manifests"].as_array().map(|a| !a.is_empty()).unwrap_or(false);
+        if d.contains(".mft") && d.contains(".roa") && has_mft("kid") && has_mft("testbed") { published = true; break }
         std::thread::sleep(std::time::Duration::from_millis(250));
     }
-    steps.push(("kid published manifest + roa", published));
+    steps.push(("kid published manifest + roa (repository statistics show manifests)", published));
     // a grandchild
     steps.push(("create grandkid", post_json(ctx, "/api/v1/cas", &json!({"handle": "grandkid"})).0 == Some(200)));
     let child_req = get_json(ctx, "/api/v1/cas/grandkid/id/child_request.json");
@@ -1005,12 +1028,13 @@ fn http_populate(ctx: &HttpCtx, ex: &mut Ex, repo: &str) {
     steps.push(("grandkid under kid", st == Some(200)));
     let parent_resp: Value = serde_json::from_slice(&body).unwrap_or(Value::Null);
     steps.push(("grandkid parent", post_json(ctx, "/api/v1/cas/grandkid/parents", &json!({"handle": "kid", "response": parent_resp})).0 == Some(200)));
-    let stale = get_text(ctx, "/api/v1/pubd/stale/0");
-    steps.push(("repository has publishers with an update time", stale.contains("kid") || stale.contains("testbed") || stale.contains("ta")));
+    let mut all_ok = true;
     for (name, ok) in steps {
-        if !ok { eprintln!("c16 http: WARNING populate step failed: {name}"); }
+        if !ok { eprintln!("c16 http: populate step failed: {name}"); all_ok = false; }
         *ex.dist.entry("http:daemon".into()).or_default().entry("populate".into()).or_default().entry(format!("{name}: {}", if ok { "ok" } else { "FAILED" })).or_default() += 1;
     }
+    // the sweeps are only meaningful on a populated daemon: without it the run is broken, not passed
+    if !all_ok { eprintln!("c16 http: the live daemon could not be brought into the populated state; giving up"); std::process::exit(3); }
 }
 
 fn odd_handles() -> Vec<String> {
